@@ -25,6 +25,12 @@ func (h HTTPIndexHandler) ServeHTTP(w http.ResponseWriter, r *http.Request) {
 		return
 	}
 	indexName := path.Base(r.URL.Path)
+	// The base name of a path like '/', '/.' or '/..' is not the name of an
+	// index but refers to the store itself or what's above it
+	if indexName == "/" || indexName == "." || indexName == ".." {
+		http.Error(w, "invalid index name", http.StatusBadRequest)
+		return
+	}
 
 	switch r.Method {
 	case "GET":
